@@ -710,3 +710,60 @@ Definition reproject_ds (fx : fixes) (tol itol : Q) (src : xobj) (dst : gbox) (d
                                   end)) cs in
         Ok (XObj true dims None (x_attrs src) cs vars)
   end.
+
+(* ================================================================== vocabulary of the property statements *)
+(** arithmetic progressions of original pixel indices (what positional slicing produces) *)
+Definition ap (p q m : Z) : list Z := map (fun k => p + q * k) (iota m).
+Definition is_ap (idx : list Z) : Prop := exists p q m, 0 <= m /\ idx = ap p q m.
+
+(** [wrap_xr]'s CRS coordinate name must not collide with the other coordinate names; the
+    user attributes must not themselves carry grid_mapping / crs / crs_wkt *)
+Definition name_ok (name : option string) (yd xd : string) : Prop :=
+  match name with
+  | Some n => n <> yd /\ n <> xd /\ n <> "time" /\ n <> "band"
+  | None => True
+  end.
+Definition clean_attrs (a : attrs) : Prop :=
+  lookup "grid_mapping" a = None /\ lookup "crs" a = None /\ lookup "crs_wkt" a = None.
+
+(** attributes of the label coordinates of an axis-aligned GeoBox *)
+Definition cattrs_of (c : option crs) : attrs := match c with Some c => [("crs", VCrs c)] | None => [] end.
+Definition st_attrs (r : Q) (c : option crs) : attrs :=
+  [("units", VOther); ("resolution", VNum r)] ++ cattrs_of c.
+
+(** dimension names the recovery guesses the spatial pair by *)
+Definition guess_names : list string := ["y"; "x"; "latitude"; "longitude"; "lat"; "lon"].
+(** names of the non-spatial dimensions of the source: not one of the names the
+    recovery guesses spatial dimensions by, and different from the spatial pair *)
+Definition other_dims_ok (l : list (string * Z)) (syd sxd : string) : Prop :=
+  forall dn, In dn l -> ~ In (fst dn) guess_names /\ fst dn <> syd /\ fst dn <> sxd.
+
+(** coordinates of the source that survive a reprojection, attributes of the output *)
+Definition keep_pred (syd sxd : string) (c : coord) : bool :=
+  negb (is_spatial_ref c) && disjointb [syd; sxd] (co_dims c).
+
+Definition out_attrs (itol : Q) (a : attrs) (dst_nodata : option Q) : attrs :=
+  match (match dst_nodata with Some v => Some v | None => nodata_of a end) with
+  | None => adel "_FillValue" (adel "nodata" (prune_spatial a))
+  | Some v => aset "nodata" (VNum (maybe_int v itol)) (prune_spatial a)
+  end.
+
+(** a geo-registered data variable [nv] of a Dataset [src]: its DataArray view has a geobox
+    with CRS, spatial dims (syd, sxd) adjacent, other dims [pre]/[post] *)
+Definition geo_var (tol : Q) (src : xobj) (nv : string * xvar) (syd sxd : string)
+           (pre post : list (string * Z)) : Prop :=
+  (exists dv st sb n1 n2,
+      ds_getitem src (fst nv) = Some dv /\ locate_geo_info repaired tol dv = Ok st /\
+      gs_box st = Some sb /\ box_crs sb <> None /\ gs_sdims st = Some (syd, sxd) /\
+      x_dims dv = pre ++ [(syd, n1); (sxd, n2)] ++ post) /\
+  syd <> sxd /\ other_dims_ok (pre ++ post) syd sxd.
+
+(** a variable passed through without a geobox that brings no coordinate or dimension
+    named like the destination's *)
+Definition plain_var (tol itol : Q) (src : xobj) (dst : gbox) (nd : option Q) (nv : string * xvar) : Prop :=
+  exists o, reproject_ds_var repaired tol itol src dst nd nv = Ok (fst nv, o) /\
+            lookup (fst (crs_dims (g_crs dst))) (x_coords o) = None /\
+            lookup (snd (crs_dims (g_crs dst))) (x_coords o) = None /\
+            lookup DEFAULT_CRS_COORD_NAME (x_coords o) = None /\
+            lookup (fst (crs_dims (g_crs dst))) (x_dims o) = None /\
+            lookup (snd (crs_dims (g_crs dst))) (x_dims o) = None.
